@@ -55,8 +55,63 @@ let base_res : res list ref = ref []   (* reversed *)
 let run_from (st : state) (ops : op list) : state * res list =
   List.fold_left (fun (st, rs) o -> let (st', r) = step st o in (st', r :: rs)) (st, []) ops
 
+
+(* ---------- byte-level framing (Frame.v): extra commands ----------
+     crc <hex>                         -> "<pebble masked crc> <crc32c>"           (decimal)
+     fset <lognum> <closed 0|1> <hex|-> ...   store the payloads, answer "<length> <hex of encode[_closed]>"
+     fcut <n>                          decode the first n bytes of the stored encoding:
+                                       "<k> <clean|torn> <valid_len> <prefix 0|1> <spec k> <spec status> <spec valid_len>"
+                                       prefix = the k records are exactly the first k stored payloads;
+                                       spec = Frame.cut_view (only meaningful for n within the unclosed part)
+     fraw <lognum> <hex>               decode arbitrary bytes: "<k> <clean|torn> <valid_len> <hex|-> ..." *)
+let byte_tab : n array = Array.init 256 n_of_int
+let bytes_of_hex (s : string) : n list =
+  if s = "-" then [] else begin
+    let len = String.length s / 2 in
+    let l = ref [] in
+    for k = len - 1 downto 0 do
+      l := byte_tab.(hexval s.[2 * k] * 16 + hexval s.[2 * k + 1]) :: !l
+    done; !l end
+let hex_of_bytes (l : n list) : string =
+  if l = [] then "-" else begin
+    let b = Buffer.create 1024 in
+    List.iter (fun x -> Buffer.add_string b (Printf.sprintf "%02x" (int_of_n x))) l;
+    Buffer.contents b end
+let take (k : int) (l : 'a list) : 'a list =
+  let rec go k l acc = if k <= 0 then List.rev acc else match l with [] -> List.rev acc | x :: r -> go (k - 1) r (x :: acc) in
+  go k l []
+let show_status = function Clean -> "clean" | Torn -> "torn"
+let f_lognum = ref (n_of_int 1)
+let f_payloads : n list list ref = ref []
+let f_bytes : n list ref = ref []
+let frame_cmd (ws : string list) : bool =
+  match ws with
+  | ["crc"; h] ->
+      let b = bytes_of_hex h in
+      Printf.printf "%d %d\n%!" (int_of_n (pebble_crc b)) (int_of_n (crc32c b)); true
+  | "fset" :: ln :: closed :: ps ->
+      f_lognum := n_of_int (int_of_string ln);
+      f_payloads := List.map bytes_of_hex ps;
+      f_bytes := (if closed = "1" then encode_closed pebble_crc !f_lognum !f_payloads
+                  else encode pebble_crc !f_lognum !f_payloads);
+      Printf.printf "%d %s\n%!" (List.length !f_bytes) (hex_of_bytes !f_bytes); true
+  | ["fcut"; ns] ->
+      let nn = int_of_string ns in
+      let ((recs, st), good) = decode_full pebble_crc !f_lognum (take nn !f_bytes) in
+      let k = List.length recs in
+      let pref = (recs = take k !f_payloads) && k <= List.length !f_payloads in
+      let ((srecs, sst), sgood) = cut_view !f_payloads (n_of_int nn) in
+      Printf.printf "%d %s %d %d %d %s %d\n%!" k (show_status st) (int_of_n good) (if pref then 1 else 0)
+        (List.length srecs) (show_status sst) (int_of_n sgood); true
+  | ["fraw"; ln; h] ->
+      let ((recs, st), good) = decode_full pebble_crc (n_of_int (int_of_string ln)) (bytes_of_hex h) in
+      Printf.printf "%d %s %d%s\n%!" (List.length recs) (show_status st) (int_of_n good)
+        (String.concat "" (List.map (fun r -> " " ^ hex_of_bytes r) recs)); true
+  | _ -> false
+
 let () =
   read_lines (fun line ->
+    if frame_cmd (words line) then () else
     match words line with
     | ["reset"] -> base_st := st0; base_res := []; print_endline "ok"; Stdlib.flush stdout
     | "adv" :: ops ->
